@@ -127,6 +127,36 @@ def sweep_known(chk, st, msg, W):
     return False
 
 
+def point_tri_dist(p, tr):
+    """distance from p to the triangle tr (3x3), Ericson's closest-point construction (binary64; used only to skip boundary probes)"""
+    a, b, c = tr
+    ab, ac, ap = b - a, c - a, p - a
+    d1, d2 = ab @ ap, ac @ ap
+    if d1 <= 0 and d2 <= 0:
+        return float(np.linalg.norm(ap))
+    bp = p - b; d3, d4 = ab @ bp, ac @ bp
+    if d3 >= 0 and d4 <= d3:
+        return float(np.linalg.norm(bp))
+    vc = d1 * d4 - d3 * d2
+    if vc <= 0 and d1 >= 0 and d3 <= 0:
+        return float(np.linalg.norm(ap - ab * (d1 / (d1 - d3))))
+    cp = p - c; d5, d6 = ab @ cp, ac @ cp
+    if d6 >= 0 and d5 <= d6:
+        return float(np.linalg.norm(cp))
+    vb = d5 * d2 - d1 * d6
+    if vb <= 0 and d2 >= 0 and d6 <= 0:
+        return float(np.linalg.norm(ap - ac * (d2 / (d2 - d6))))
+    va = d3 * d6 - d5 * d4
+    if va <= 0 and (d4 - d3) >= 0 and (d5 - d6) >= 0:
+        w = (d4 - d3) / ((d4 - d3) + (d5 - d6))
+        return float(np.linalg.norm(p - (b + w * (c - b))))
+    den = va + vb + vc
+    if den == 0:
+        return float(min(np.linalg.norm(ap), np.linalg.norm(bp), np.linalg.norm(cp)))
+    v, w = vb / den, vc / den
+    return float(np.linalg.norm(p - (a + ab * v + ac * w)))
+
+
 def close(x, y, scale=None):
     x, y = np.asarray(x, float), np.asarray(y, float)
     if x.shape != y.shape:
@@ -139,13 +169,36 @@ def get(o, name):
     return C.excname(lambda: getattr(o, name))
 
 
+def conditioning(desc):
+    """rounding allowance factor for translated thin shapes: measures are sums of terms of size offset * extent^k, so the relative error
+    grows with offset / thinnest extent (needles and plates far from the origin); 1 for ordinary shapes"""
+    V = np.asarray(desc["vertices"], float)
+    ev = np.linalg.eigvalsh(np.cov((V - V.mean(0)).T))
+    ev = ev[ev > 1e-12 * max(float(ev.max()), 1e-300)]          # (planar shapes: in-plane extents only)
+    thin = 2 * math.sqrt(float(ev.min())) if len(ev) else 1.0
+    return max(1.0, float(np.linalg.norm(desc["translation"])) / (desc["scale"] * thin) / 1000.0)
+
+
 def compare_scalar(chk, a, b, name, power, s, desc):
     sa, va = get(a, name)
     sb, vb = get(b, name)
     if sa != sb:
         chk.violation("outcome-changed:" + name, dict(desc, before=sa, after=sb)); return
-    if sa == "ok" and not close(float(vb), float(va) * s ** power):
+    if sa == "ok" and not close(float(vb), float(va) * s ** power, scale=abs(float(va) * s ** power) * conditioning(desc)):
         chk.violation("not-covariant:" + name, dict(desc, before=float(va), after=float(vb), expected=float(va) * s ** power))
+
+
+DEFBALLS = ("circumsphere", "insphere", "circumcircle", "incircle")
+
+
+def ball_deviation(sh, ball, name):
+    """how far the returned ball is from meeting its definition (all vertices on it / tangent to every face or edge), relative to the extent"""
+    from .C13 import tangency_deviation
+    Va = np.asarray(sh.vertices, float); c, r = np.asarray(ball.center, float), float(ball.radius)
+    ext = float(np.max(np.ptp(Va, axis=0))) + 1e-300
+    dev = (float(np.max(np.abs(np.linalg.norm(Va - c, axis=1) - r))) if name.startswith("circum")
+           else tangency_deviation(sh, Va, 2 if name.endswith("circle") else 3, c, r))
+    return dev / ext
 
 
 def compare_ball(chk, a, b, name, R, s, t, desc):
@@ -156,9 +209,24 @@ def compare_ball(chk, a, b, name, R, s, t, desc):
             chk.known_finding("residual-isclose-absolute", "circum-/in-ball existence is decided by np.isclose(residual, 0) with an absolute tolerance: the verdict changes with the scale of the shape")
             chk.count("known:isclose-resid")
             return
+        if name in DEFBALLS and {sa, sb} == {"ok", "RuntimeError"}:
+            # borderline of the implementation's residual tolerance: the side that answered returned a ball that does not meet the
+            # definition to rounding, i.e. the shape is cyclic / tangential only approximately - either answer is within the tolerance
+            sh_ok, v_ok = (a, va) if sa == "ok" else (b, vb)
+            if 1e-9 < ball_deviation(sh_ok, v_ok, name) <= 1e-3:   # (a grossly wrong ball is not 'within tolerance')
+                chk.count("ball-only-within-tolerance(not judged)")
+                return
         chk.violation("outcome-changed:" + name, dict(desc, before=sa, after=sb)); return
     if sa != "ok":
         return
+    if name in DEFBALLS:
+        # the implementation accepts shapes that are cyclic / tangential only up to its residual tolerance and then returns a
+        # least-squares ball anchored at the first vertex: that ball is not the ball of the definition, it depends on the vertex
+        # order, and no covariance law applies to it.  Judged only when the returned ball meets the definition to rounding.
+        dev = ball_deviation(a, va, name)
+        if 1e-9 < dev <= 1e-3:
+            chk.count("ball-only-within-tolerance(not judged)")
+            return
     size = s * (1 + float(np.max(np.abs(np.asarray(a.vertices))))) + float(np.linalg.norm(t))
     if not close(float(vb.radius), float(va.radius) * s, scale=size) or not close(np.asarray(vb.center, float), s * R @ np.asarray(va.center, float) + t, scale=size):
         chk.violation("not-covariant:" + name, dict(desc, before=[float(va.radius), np.asarray(va.center).tolist()], after=[float(vb.radius), np.asarray(vb.center).tolist()]))
@@ -195,7 +263,21 @@ def compare3d(chk, a, b, R, s, t, desc, rng):
     # containment of transformed probe points
     V = np.asarray(a.vertices, float)
     c0 = V.mean(0)
-    P = np.array([c0, c0 + 0.5 * (V[0] - c0), c0 + 1.5 * (V[1] - c0), c0 + 0.9 * (V[2] - c0), V.max(0) + 1.0, c0 + 0.25 * (V[3 % len(V)] - c0) + 0.25 * (V[0] - c0)])
+    P = [c0, c0 + 0.5 * (V[0] - c0), c0 + 1.5 * (V[1] - c0), c0 + 0.9 * (V[2] - c0), V.max(0) + 1.0, c0 + 0.25 * (V[3 % len(V)] - c0) + 0.25 * (V[0] - c0)]
+    # probes sharing coordinates with vertices in a's frame (where sign tie-breaking decides) - generic in b's frame
+    nv = len(V)
+    for _ in range(12):
+        i, j, k = (int(x) for x in rng.integers(nv, size=3))
+        mix = np.array([V[i, 0], V[j, 1], V[k, 2]])
+        P.append(mix if rng.random() < 0.5 else np.array([V[i, 0], V[i, 1], 0.5 * (V[j, 2] + V[k, 2])]))
+    P = np.array(P)
+    st_tri, tris = C.excname(lambda: np.array(list(a._surface_triangulation()), float))
+    if st_tri == "ok" and len(tris):
+        dmin = np.array([min(point_tri_dist(p, tr) for tr in tris) for p in P])
+    else:   # triangulation unavailable (recorded polytri finding): fan triangles of the faces
+        Fa = [np.asarray(V)[list(map(int, f))] for f in a.faces]
+        dmin = np.array([min(point_tri_dist(p, np.array([f[0], f[m], f[m + 1]])) for f in Fa for m in range(1, len(f) - 1)) for p in P])
+    P = P[dmin > 1e-6 * (float(np.max(np.ptp(V, axis=0))) + 1e-300)]
     ia, ib = C.excname(a.is_inside, P), C.excname(b.is_inside, s * P @ R.T + t)
     if ia[0] != ib[0] or (ia[0] == "ok" and list(map(bool, ia[1])) != list(map(bool, ib[1]))):
         chk.violation("not-covariant:is_inside", dict(desc, before=None if ia[0] != "ok" else list(map(bool, ia[1])), after=None if ib[0] != "ok" else list(map(bool, ib[1])), outcomes=[ia[0], ib[0]]))
